@@ -335,6 +335,27 @@ def _run_shift(ctx, case):
                     again = J.call("shift", sh.shift, pre, container, name)
                     if again is not None:
                         J.eq("shift_inverts_unshift", again, y, "shift(unshift(y))", name, y)
+            # wells of B that no well of A is shifted onto: unshift may refuse them; an answer it does give must
+            # be the well that shift maps back (mutually inverse)
+            outside_img = [(r, c) for r in range(rb) for c in range(cb) if not (dr <= r < dr + ra and dc <= c < dc + ca)]
+            for (r, c) in rng.sample(outside_img, min(3, len(outside_img))):
+                b = wid(r, c)
+                try:
+                    a = list(np.atleast_1d(sh.unshift([b])).tolist())
+                    e1 = None
+                except Exception as e:
+                    a, e1 = None, e
+                if e1 is not None:
+                    ctx.count("unshift_outside_image_refused")
+                    continue
+                try:
+                    back = list(np.atleast_1d(sh.shift(a)).tolist())
+                except Exception:
+                    back = None
+                ctx.count("unshift_outside_image_answered")
+                ctx.check("unshift_answer_is_mapped_back_by_shift", back == [b],
+                          lambda: {"shape_A": [ra, ca], "shape_B": [rb, cb], "shifted_A01": anchor, "well_of_B": b,
+                                   "unshift_returned": a, "shift_of_that": back})
             _trash(ctx, sh)
     # anchors that are not wells of B
     outside = []
